@@ -15,7 +15,7 @@ def run(tier):
             ("MC_Annot_stack3.cfg", "find_stackings scan of three residues in every chain/number order: once, ordered, "
                                     "sound, complete", None, ("ScanPair", "ScanDone")),
         ])
-        recipes = annot.usable_recipes(tier)
+        recipes = annot.usable_recipes(tier) + annot.probe_recipes("C04", tier)
         cases = lib.pmap(annot.record_c04, recipes)
         res, info = annot.validate("C04", cases, sc)
         by_id = {c["id"]: c for c in cases}
@@ -32,8 +32,9 @@ def run(tier):
         cov["structures"] = sorted({c["recipe"]["file"] for c in cases})
         cov["exhaustive"] = False
         cov["rule"] = ("corpus structures from tests/ (quick: %d files; thorough: all non-empty files, reader models 1-3), "
-                       "each as read, rigidly moved, jittered (sigma 0.02/0.1/0.3 A), thinned of residues / atoms, squashed, "
-                       "and as a two-model structure; every residue pair with centroid distance <= 7 A is measured. "
+                       "each as read, rigidly moved, jittered (sigma 0.02/0.1/0.3 A), thinned of residues / atoms, squashed, residue order shuffled, "
+                       "and as a two-model structure; plus threshold probes (two residues of a corpus structure, one moved rigidly so "
+                       "that one decision quantity sits at its threshold +- delta); every residue pair with centroid distance <= 7 A is measured. "
                        "A case (structure variant) is non-trivial when the code reports >= 1 stacking AND the spec finds "
                        ">= 1 candidate that certainly qualifies; distinct = distinct recipe ids." % len(cov["structures"]))
         cov["distinct_nontrivial"] = len({c["id"] for c in cases if c["stacks"] and info.get(c["id"], [0, 0, 0])[1] > 0})
